@@ -616,7 +616,8 @@ def run_chunk(machine: Machine, base_seed: int, indices, avoid_frac_known,
                 faulthandler.dump_traceback_later(run_timeout, exit=True)
                 plan, res = run_seed(machine, seed, avoid, ops_scale)
                 faulthandler.cancel_dump_traceback_later()
-                if res['verdict'] != 'OK' or i < keep_samples:
+                if res['verdict'] != 'OK' or (i < keep_samples
+                                              and res['nontrivial']):
                     res['plan'] = plan
                 with os.fdopen(w, 'wb') as fh:
                     pickle.dump(res, fh, protocol=4)
